@@ -1,6 +1,7 @@
 import S3V.Model.SigV4
 import S3V.Model.SigV4E2E
 import S3V.Spec.SigV4Verify
+import S3V.Spec.PostPolicy
 import S3V.Crypto.All
 /-!
 Driver for components `sigv4` (pure functions), `sigv4e2e` (header authentication end to end),
@@ -261,7 +262,7 @@ def judgeE2E (id : String) (ins outs0 : List String) : String :=
       ([kind, sink, ver, auth, m, p, "+" ++ sent, hn, hv, bmode, body, fnm, fvl, file, bd, aks, secs], [n1, n2, impl])
     | _, _ => (ins, outs0)
   match ins, outs with
-  | [kind, sink, ver, auth, m, p, q, hn, hv, bmode, body, fnm, fvl, _file, bd, aks, secs], [now1, now2, impl] =>
+  | [kind, sink, ver, auth, m, p, q, hn, hv, bmode, body, fnm, fvl, file, bd, aks, secs], [now1, now2, impl] =>
     match optHexDecode auth, hexDecode m, hexDecode p, optHexDecode q, listHexDecode hn, listHexDecode hv,
           hexDecode body, listHexDecode fnm, listHexDecode fvl, hexDecode bd, listHexDecode aks, listHexDecode secs with
     | some auth, some m, some p, some q, some hn, some hv, some body, some fnm, some fvl, some bd, some aks, some secs =>
@@ -294,6 +295,17 @@ def judgeE2E (id : String) (ins outs0 : List String) : String :=
                             else if implAccept || implAuthErr || impl = "ANON" then some "refused-or-misattributed" else none
             | .reject _ => if implAccept then some "accepted" else none
             | .anonymous => if implAccept then some "accepted" else none
+          -- C10, policy clause: an accepted form must comply with the policy it carries (AWS POST-policy document)
+          let policyComplaint : Option (Option PostPolicy.Defect × Option PostPolicy.Defect) :=
+            if kind.startsWith "post" && implAccept then
+              match SigV4Spec.fieldVals form SigV4Spec.fPolicy with
+              | [pol] =>
+                let bucket := (splitFirst 47 (p.drop 1)).1
+                let fileLen := file.length / 2
+                some (PostPolicy.formDefect (n1 / 1000000000) pol form bucket fileLen,
+                      PostPolicy.formDefect (n2 / 1000000000) pol form bucket fileLen)
+              | _ => none
+            else none
           match complaint with
           | some what =>
             -- a wrong window is a class of its own, whatever else the request looks like
@@ -305,7 +317,21 @@ def judgeE2E (id : String) (ins outs0 : List String) : String :=
             specfail id cls s!"{what}: spec={specStr s1} impl={impl}"
           | none =>
             if model ≠ impl then disagree id model impl
-            else
+            else match policyComplaint with
+            | some (some d, some d') =>
+              if d ≠ d' then unmodelled id "clock-moved-across-the-policy-expiration"
+              else
+                let cls := match d with
+                  | .malformed => "post-policy-malformed-accepted"
+                  | .expired => "post-policy-expired-accepted"
+                  | .exactViolated => "post-policy-condition-violated-accepted"
+                  | .startsWithViolated => "post-policy-starts-with-violated-accepted"
+                  | .lengthRange => "post-policy-length-range-accepted"
+                  | .fieldUncovered => "post-policy-field-uncovered-accepted"
+                specfail id cls s!"accepted although the policy forbids the upload ({reprStr d}): impl={impl}"
+            | some (some _, none) => unmodelled id "clock-moved-across-the-policy-expiration"
+            | some (none, some _) => unmodelled id "clock-moved-across-the-policy-expiration"
+            | _ =>
               let tag := if implAccept then "accept" else if impl = "ANON" then "anon" else impl.replace "ERR:" "err-"
               agree id s!"{kind}-{tag}"
       | _, _, _, _, _ => badline id
